@@ -4,9 +4,8 @@ package hkdf
 
 // Contracts for package hkdf, checked by /verif (govc). Comment-only file: it adds no declarations.
 
-// Assumed (body calls x/crypto/hkdf): reading 32 bytes from an HKDF-SHA-512 stream cannot fail (the limit is 255*64
-// bytes, x/crypto/hkdf/hkdf.go), so err is always nil and the key is the idealised hkdf() of the inputs.
+// Sha512 is HKDF-SHA-512 of (master, salt, info), first 32 bytes - for every call, whatever was derived before (the
+// x/crypto stream is assumed: contracts/trusted/misc.spec; reading 32 bytes from it cannot fail, the limit is 255*64).
 //@ func Sha512(master, salt, info) (key, err)
-//@   trusted
 //@   pure
 //@   ensures err == nil && seq(key) == hkdf(seq(master), seq(salt), seq(info))
